@@ -42,18 +42,22 @@ type c20 struct {
 
 func checkC20(c *Ctx) {
 	r, p := c.R, c.P
-	r.Explanation = "Decides necessary conditions of C20 on context.Pool, with every construct resolved by role (fields through their types, the watcher as the goroutine NewPool starts, the pool's cancel function through dataflow from context.WithCancel) and every path rule evaluated on an inlined view of the exported methods (package callees, deferred calls and function literals are followed; evidence is attached to CFG edges, so if/switch/select forms, early returns, helpers returning a boolean, defer vs explicit calls are equivalent): " +
-		"(Y1) the members slice is only touched under the Pool mutex (write mode for writes); the watcher's entry lockset is whatever NewPool holds at the go statement and still holds when it returns; " +
-		"(Y2) the watcher invokes the pool context's cancel only on paths that, since its last blocking wait, re-read len(members) and observed index >= len for an index that starts at 0 and advances by 1 — so a member added while the pool is live is waited for; " +
-		"(Y3) every blocking operation the watcher performs is a select with a case on an element of the members slice and a case on the Cancel channel, and every exit of the watcher has invoked cancel; " +
-		"(Y4) every store to the members slice reachable from Add happens with the write lock held and after a non-blocking test, made in the same lock hold, that found neither the pool context done nor the Cancel channel closed; every return of Add has either seen the pool ended or appended the offered context to the existing members; " +
-		"(Y5) every close of the Cancel channel reachable from Cancel happens under the write lock after observing members != nil in the same hold (or inside sync.Once.Do) and members is set to nil before that hold ends; " +
-		"(Y6) NewPool's loop over the initial contexts is left only by its index test (index 0..len-1 step 1) and an iteration that does not append the context's Done channel to a slice flowing into the members field has observed that context done; " +
-		"(Y7) every return of Cancel has stored nil to members or seen it nil; (Y8) while the pool is shared, every store to the members slice is an append to the current members (or Cancel's nil) and no element is overwritten, moved or removed (sub-slices, filtered/rebuilt slices, slices.Delete & co. are reported; unknown producers are UNDECIDED) — the watcher's positional index relies on it. " +
-		"NOT decided: the history-level claim 'never early / always eventually' over all cancellation orders and Add timings; that Size returns exactly len(members); that the channel waited for is the one at the current index."
+	r.Explanation = "Decides necessary conditions of C20 on context.Pool. Anchors are the exported API (Pool, NewPool, Add, Cancel, Size) and the standard library; everything else is resolved by role: the fields of Pool through their types (the sync.(RW)Mutex, the slice of channels = members, the channel Cancel closes, the embedded Context; also inside sub-structs of Pool, named or anonymous, by value or pointer), the watcher as the goroutine NewPool or a package callee starts, the pool's cancel function by dataflow from the context.WithCancel call whose context reaches Pool.Context. A field written only at construction with one single-origin value is identified with that value (a local captured by the watcher, a parameter); a boolean field only ever set to true after construction may stand in for members != nil / the closed Cancel channel. Every path rule runs on an inlined view of the entry points: a path-sensitive flow over sets of bit-vector states in which package callees, deferred calls, function literals, sync.Once.Do arguments and resolvable function values (closure parameters, method values incl. the mutex's, func-typed fields, elements of literal tables, methods of a single-implementation unexported interface) are entered as frames (depth <= 3), counted loops over a literal table of <= 3 elements are unrolled, the constant (bool or small enum, <= 3 values) a followed helper returned and boolean flags stay attached to the path, and evidence sits on CFG edges (select case fired / default taken, Err()/context.Cause vs nil, members vs nil, index vs len(members), a set-once flag), so if/switch/select forms, early returns, helpers, defer vs explicit calls are equivalent. " +
+		"(Y1) every access to the members slice on every path of the exported functions (entered without the lock) and of the watcher (entered with what NewPool holds at the go statement and at each of its returns) holds the Pool mutex, write mode for writes; accesses made by an entry point that is not handed a Pool, before it starts a goroutine, are private; " +
+		"(Y2) the watcher invokes the pool context's cancel only on paths that, since its last blocking wait, re-read len(members) and observed index >= len for an index that starts at 0 and advances by 1, or saw the Cancel channel closed / members nil / the set-once flag — so a member added while the pool is live is waited for; " +
+		"(Y3) every blocking operation the watcher performs is a select with a case on an element of the members slice and a case on the Cancel channel; every exit of the watcher has invoked cancel; cancel is invoked nowhere outside the watcher and Cancel; " +
+		"(Y4) every store to the members slice reachable from Add happens with the write lock held and after a non-blocking test, made in the same lock hold, that found neither the pool context done nor the pool cancelled (one select, several selects, Err(), a set-once flag, a counted loop over a literal/variadic list of channels left by its index test); every return of Add has either seen the pool ended or stored the current members grown by the offered context's Done(); " +
+		"(Y5) every close of the Cancel channel reachable from Cancel happens under the write lock after observing, in the same hold, members != nil, the Cancel channel not yet closed or the set-once flag unset (or inside sync.Once.Do), and members is set to nil (and the flag, if one exists, set) before that hold ends; " +
+		"(Y6) NewPool's loop over the initial contexts (also in a package callee) is left only by its index test (index 0..len-1 step 1, range / three-clause / rotated form) and an iteration that does not append the context's Done channel to a slice flowing into the members field has observed that context done; " +
+		"(Y7) every return of Cancel has stored nil to members or seen it nil (or the Cancel channel closed / the flag set), and the flag is only set in holds that drop the members; " +
+		"(Y8) while the pool is shared, every store to the members slice is the current members grown at the end (append, also through temporaries, helpers, full re-slices, slices.Clip/Grow/Clone) or Cancel's nil, and no element is overwritten, moved or cleared; strict sub-slices, filtered/rebuilt/fresh slices, slices.Delete & co., nil outside Cancel are reported; unknown producers are UNDECIDED — the watcher's positional index relies on it. " +
+		"A rule that fails while the flow had to over-approximate (unresolved function value, untraceable channel, table or enum beyond the bounds, recursion, frame depth) or meets a shape it cannot interpret (arithmetic over len(members), a predicate of another package over the pool's signals, a boolean field that is not set-once, members not collected by append) is UNDECIDED, not VIOLATION. " +
+		"NOT decided: the history-level claim 'never early / always eventually' over all cancellation orders and Add timings; that Size returns exactly len(members); that the channel waited for is the one at the current index; that the element appended in NewPool belongs to the context that was tested."
 	r.Assumptions = append(r.Assumptions,
 		"sync.RWMutex may be unlocked by a goroutine other than the locker (documented), which is what the NewPool hand-off relies on",
-		"context.Context implementations are well behaved: Done() of one context always returns the same channel, Err() != nil iff Done() is closed")
+		"context.Context implementations are well behaved: Done() of one context always returns the same channel, Err() != nil iff Done() is closed",
+		"identities are type-based: a field is (declaring struct type, field), not the object — sound here because every rule talks about the one Pool an entry point works on",
+		"library models: sync.(RW)Mutex Lock/Unlock/RLock/RUnlock, sync.Once.Do runs its argument at most once synchronously, slices.Clip/Grow/Clone keep elements and order, every other slices.* function may remove or move elements")
 	r.Rule("C20.Y1-guard", "the members slice of Pool is accessed only under the Pool mutex (W for writes); watcher entry lockset = what NewPool hands over", 3)
 	r.Rule("C20.Y2-reread", "the watcher cancels the pool context only after re-reading len(members) since its last wait and observing index >= len (index from 0 step 1)", 1)
 	r.Rule("C20.Y3-waits", "every wait in the watcher selects on a member channel and on the Cancel channel; every exit of the watcher has invoked the pool context's cancel", 2)
